@@ -315,6 +315,8 @@ fn feed_through_reconnecting_links(w: &WorldB, sc: &ScenarioB) -> Result<Vec<Ev>
     rt.block_on(async {
         let start = tokio::time::Instant::now();
         let (feed_tx, mut feed_rx) = mpsc_unbounded::<Ev>();
+        type MarketLink = std::pin::Pin<Box<dyn futures::Stream<Item = barter_data::streams::reconnect::Event<ExchangeId, Result<barter_data::event::MarketEvent<InstrumentIndex, barter_data::event::DataKind>, String>>> + Send>>;
+        let mut market_links: Vec<MarketLink> = Vec::new();
         for (li, conns) in links.into_iter().enumerate() {
             let (e, is_market) = (li / 2, li % 2 == 0);
             let queue = Arc::new(Mutex::new(conns.into_iter().collect::<VecDeque<Conn>>()));
@@ -355,12 +357,15 @@ fn feed_through_reconnecting_links(w: &WorldB, sc: &ScenarioB) -> Result<Vec<Ev>
                 .with_reconnection_events(EXS[e]);
             let tx = feed_tx.clone();
             if is_market {
+                // market links of all exchanges are merged and error-handled as one stream, the way
+                // init_indexed_multi_exchange_market_stream composes them
                 let s = futures::StreamExt::map(composed, |ev| match ev {
-                    barter_data::streams::reconnect::Event::Reconnecting(x) => barter_data::streams::consumer::MarketStreamEvent::Reconnecting(x),
-                    barter_data::streams::reconnect::Event::Item(LinkItem::Market(m)) => barter_data::streams::consumer::MarketStreamEvent::Item(m),
+                    barter_data::streams::reconnect::Event::Reconnecting(x) => barter_data::streams::reconnect::Event::Reconnecting(x),
+                    barter_data::streams::reconnect::Event::Item(LinkItem::Market(m)) => barter_data::streams::reconnect::Event::Item(Ok::<_, String>(m)),
                     barter_data::streams::reconnect::Event::Item(LinkItem::Account(_)) => unreachable!(),
                 });
-                tokio::spawn(s.forward_to(tx));
+                market_links.push(Box::pin(s));
+                drop(tx);
             } else {
                 let s = futures::StreamExt::map(composed, |ev| match ev {
                     barter_data::streams::reconnect::Event::Reconnecting(x) => barter::execution::AccountStreamEvent::Reconnecting(x),
@@ -369,6 +374,14 @@ fn feed_through_reconnecting_links(w: &WorldB, sc: &ScenarioB) -> Result<Vec<Ev>
                 });
                 tokio::spawn(s.forward_to(tx));
             }
+        }
+        {
+            let merged = futures::stream::select_all(market_links).with_error_handler(|_error: String| {});
+            let s = futures::StreamExt::map(merged, |ev| match ev {
+                barter_data::streams::reconnect::Event::Reconnecting(x) => barter_data::streams::consumer::MarketStreamEvent::Reconnecting(x),
+                barter_data::streams::reconnect::Event::Item(m) => barter_data::streams::consumer::MarketStreamEvent::Item(m),
+            });
+            tokio::spawn(s.forward_to(feed_tx.clone()));
         }
         // commands / trading-state updates go straight into the feed (System::feed_tx)
         let tx = feed_tx.clone();
